@@ -13,6 +13,7 @@ Secondary observation (own locus, never masks the primary ones): the legacy
 """
 from fractions import Fraction as F
 import copy
+import json
 import math
 import gen
 import common
@@ -136,6 +137,11 @@ def gen_counts_case(rng, table=False):
     if table:
         n_resp *= 2
     sv = gen.gen_survey(rng, vars_, weighted=(wmode != "unit"), n_resp=n_resp, skew=rng.random() < 0.5)
+    if wmode != "unit" and rng.random() < 0.25:
+        # small / tiny exact weight scales: the effective base (sum w)^2 / sum w^2 and the test are scale-free, so a
+        # squared-weight total of 1e-11 or 1e-24 is not "zero" (round 5: np.isclose(sum_w2, 0) fallback)
+        scale = F(1, 2 ** rng.choice([20, 20, 40]))
+        sv = [(w * scale, ans) for w, ans in sv]
     tr = {}
     if rng.random() < 0.8:
         tr["rows_dimension"] = U.gen_dim_transforms(rng, axes[0], p_prune=0.15)
@@ -664,9 +670,26 @@ def evaluate(case, louts, ctx):
     survey_all = gen.survey_from_json(case["survey"]) if "survey" in case else None
     resp = _mk_response(case, vars_all, survey_all)
 
+    # round 5: in a third of the cases the slice under test is a SECOND partition object built on a Cube whose first
+    # partition has already computed its pairwise results (arrays cached on the Cube - overlaps, valid overlaps,
+    # squared weights - must not have been touched by the first one)
+    warm = (len(json.dumps(case.get("survey", case.get("data")))) + len(case["vars"])) % 3 == 0
+
     def mk(k):
-        # a FRESH slice object each time (the library rewrites ids inside the dicts it is given)
-        return lambda: Cube(copy.deepcopy(resp), transforms=copy.deepcopy(tr)).partitions[k]
+        # a FRESH cube each time (the library rewrites ids inside the dicts it is given)
+        def build():
+            cube = Cube(copy.deepcopy(resp), transforms=copy.deepcopy(tr))
+            if not warm:
+                return cube.partitions[k]
+            from cr.cube.cubepart import CubePartition
+            p0 = cube.partitions[k]
+            for nm in ("pairwise_indices", "pairwise_indices_alt", "pairwise_means_indices"):
+                common.call_impl(lambda: getattr(p0, nm))
+            for fn in ("pairwise_significance_t_stats", "pairwise_significance_p_vals"):
+                common.call_impl(lambda: getattr(p0, fn)(0))
+            ctx.count("second-partition-on-warm-cube")
+            return CubePartition.factory(cube, k, transforms=copy.deepcopy(tr))
+        return build
 
     if not case.get("table"):
         return _eval_part(case, plan, louts, mk(0), ctx, "")
